@@ -520,7 +520,6 @@ template<class C, class K, class V, bool ORD> struct Engine
 		int untilfull = r.range(4, 20);
 		for (int step = 0; step < nops; step++) {
 			Slot& sl = s[r.chance(0.7) ? 0 : 1 + r.below(NS - 1)];
-			int nb0 = buckets(*sl.c);
 			int w = (int)r.below(100);
 			if (w < 16) put(sl, pick(sl, 0.3), Gen<V>::val(r), 0);
 			else if (w < 23) put(sl, pick(sl, 0.4), Gen<V>::val(r), 1);
@@ -601,10 +600,8 @@ template<class C, class K, class V, bool ORD> struct Engine
 				c.op("drop container, start a fresh one");
 				sl.c.reset(Fresh<C, ORD>::make(r, c));
 				sl.m.clear();
-				nb0 = buckets(*sl.c);
 			} else if (w < 93) eq_slots(sl, s[r.below(NS)], OrdTag());
 			else { full(sl, (int)r.below(3)); }
-			note_growth(sl, nb0);
 			light(sl);
 			if (--untilfull <= 0) {
 				for (int i = 0; i < NS; i++) full(s[i], (int)r.below(3));
@@ -633,8 +630,8 @@ template<class C, class K, class V, bool ORD> static void run_hist(vf::Ctx& c, c
 		pn = "large";
 		want = r.range(1900, 2500);
 		prefill = r.range(1700, 1800);
-		e.bulkmax = 150;
-		nops = r.range(10, 120);
+		e.bulkmax = 30;
+		nops = r.range(10, 50);
 	} else if (prof < large_pct + 45) {
 		pn = "medium";
 		want = r.range(240, 620);
